@@ -196,6 +196,7 @@ extend("C13", "Bounded stand-in (labelled, not counted): the magnet link exporte
 extend("C14", "The compaction stand-in also covers a tracker added after the torrents were reloaded by a new session.")
 extend("C04", "Round 5 (batch 3): a re-check that finds pieces missing clears the completed flag before the torrent is stopped again, also when the user asked for the re-check.")
 extend("C11", "The bencode guard answers after the first complete value: the raw block that follows the dictionary of a metadata message is never read as bencode.")
+extend("C09", "Round 5 (batch 3): the web-seed downloader decides whether a piece is the last of its range against the live end of the range (as shortened by the picker), not a value remembered at start.")
 
 na("C10", "liveness/progress over unbounded schedules of several goroutines: a function contract cannot state fairness or progress measures (DESIGN.md §4 C10)")
 na("C20", "data races and lock-ups quantify over schedules; the contracts are sequential and assume the single-owner discipline C20 asks to prove (DESIGN.md §4 C20)")
